@@ -25,7 +25,7 @@ func init() {
 				"Line (from its line parameter or the lexer's current line) and TemplatePath (from t.Name). (C12.early) in the parser, a line number handed to a constructor is read before any nested " +
 				"body (itemList) is parsed on that path, so multi-line constructs carry the line of their opening action. (C12.pos) every panic reachable from Execute is raised through NodeBase.errorf " +
 				"(and so carries file and line); functions that panic with a bare error are enumerated. (C12.stream) outside executeTry (and exec's Discard) nothing replaces the output Writer, so output " +
-				"produced before a failing action has already been written. (C12.piped) every dereference of a piped-value pointer (a *reflect.Value parameter or Arguments.pipedVal) lies where the pointer is known to be non-nil, so a '_' placeholder without a piped value is an error, not a nil dereference. (C12.div) every integer / and % whose divisor is not a non-zero constant lies where the divisor is known to be non-zero. (C12.assert) every unchecked assertion of a Node to a concrete node type lies where n.Type() is known to be that type's constant — by a positive test, or because every other type the parser admits at that place (derived from the parser's own tests around the append to an assignment's target list; declarations narrowed to identifier/underscore, itself an obligation on the parser) was ruled out. (C12.set) reflect.Value.Set is reached only where CanSet, the value's validity and AssignableTo are known true, SetMapIndex only where the map is non-nil and key and value fit the map's key and element types. (C12.call) reflect.Value.Call is reached only where the callee is known to be a non-nil function (its kind tested by the function or by every caller). (C12.iface) an unchecked v.Interface().(T) lies behind v.Type().Implements(<T>) for an interface T, and for a concrete T behind a Convert to T's reflect.Type or a test of type identity.",
+				"produced before a failing action has already been written. (C12.piped) every dereference of a piped-value pointer (a *reflect.Value parameter or Arguments.pipedVal) lies where the pointer is known to be non-nil, so a '_' placeholder without a piped value is an error, not a nil dereference. (C12.div) every integer / and % whose divisor is not a non-zero constant lies where the divisor is known to be non-zero. (C12.assert) every unchecked assertion of a Node to a concrete node type lies where n.Type() is known to be that type's constant — by a positive test, or because every other type the parser admits at that place (derived from the parser's own tests around the append to an assignment's target list; declarations narrowed to identifier/underscore, itself an obligation on the parser) was ruled out. (C12.set) reflect.Value.Set is reached only where CanSet, the value's validity and AssignableTo are known true, SetMapIndex only where the map is non-nil and key and value fit the map's key and element types. (C12.call) reflect.Value.Call is reached only where the callee is known to be a non-nil function (its kind tested by the function or by every caller). (C12.iface) an unchecked v.Interface().(T) lies behind v.Type().Implements(<T>) for an interface T, and for a concrete T behind a Convert to T's reflect.Type or a test of type identity. (C12.kind) every reflect.Value.Int/Uint/Float/Bool lies where the kind of the receiver is known to be in the accessor's class (switch case, == test or one of the module's kind predicates, themselves verified against all kinds).",
 			NotDecided:  "that the recorded line is the action's own line for multi-line actions (lexer look-ahead); errors returned as a second result by reflected user functions (dropped by the call path: observed, not decided); writer errors.",
 			Assumptions: []string{"panics raised inside the standard library's reflect package are strings or runtime errors"},
 			Trusted:     commonTrusted,
@@ -72,6 +72,7 @@ func runC12(c *an.Ctx) {
 	c12assert(c)
 	c12set(c)
 	c12call(c)
+	c12kind(c)
 	p := c.P
 	info := p.Jet.TypesInfo
 	eval, parse := p.Eval(), p.Parse()
